@@ -2170,8 +2170,15 @@ def lex_tokens(line):
         tokens = ['string', value]
         return LineTokens(line, tokens)
 
+    # set character literals aside so that '#', '(', ')', ',' and ' ' inside them survive the steps below
+    chars = []
+    def stash(match):
+        chars.append(match.group(0))
+        return ' \x00{}\x00 '.format(len(chars) - 1)
+    contents = re.sub(r"'(\\.|[^\\'])'", stash, line.contents)
+
     # strip comments
-    contents = re.sub(r'#.*$', r'', line.contents)
+    contents = re.sub(r'#.*$', r'', contents)
 
     # pad parens before split
     contents = contents.replace('(', ' ( ').replace(')', ' ) ')
@@ -2189,6 +2196,9 @@ def lex_tokens(line):
     # remove empty tokens
     while '' in tokens:
         tokens.remove('')
+
+    # put the character literals back
+    tokens = [re.sub(r'\x00(\d+)\x00', lambda m: chars[int(m.group(1))], t) for t in tokens]
 
     # carry the line and its tokens forward
     return LineTokens(line, tokens)
